@@ -335,7 +335,15 @@ func mutations(p []string, full bool) []mcase {
 		} else if isKeyword[t] {
 			subs = append(subs, "link", "data", "tags", "revisions", "current", "index", "_manifests", "_uploads")
 		}
+		tagPos := i >= 2 && p[i-1] == "tags" && p[i-2] == "_manifests"
+		uuidPos := i >= 1 && p[i-1] == "_uploads"
 		for _, j := range subs {
+			if (tagPos || uuidPos) && (j == "_manifests" || j == "_layers" || j == "_uploads") {
+				// a reserved keyword in the tag position is not a mutation but a valid tag: those paths are
+				// exercised as BUILT paths in the dedicated look-alike trace (finding F38b), not here; the same
+				// greedy-GetRepo effect with a reserved keyword as upload id belongs to that finding too
+				continue
+			}
 			if j != t {
 				add(splice(p, i, 1, j), fmt.Sprintf("sub:%s@%d", j, i+1))
 			}
